@@ -141,7 +141,7 @@ Inductive value :=
 | VArr1 (d : dtype) (l : list fl)
 | VArr2 (d : dtype) (l : list (list fl)).
 
-Inductive err := EValue | EType | EOverflow | EAttr | EKey.
+Inductive err := EValue | EType | EOverflow | EAttr | EKey | EOther.
 
 (* [Unmod]: the input is outside the modelled fragment (e.g. a decimal string
    that is not a multiple of 1/8); the correspondence check never compares
@@ -313,6 +313,8 @@ Definition fint_z (v : value) : res Z :=
            | _ :: _ => bind (parse_float s') int_of_fl
            | [] => Raise EValue
            end
+  | VS (SInt n) | VS (SNpInt n) => Ok n          (* numbers.Integral: exact *)
+  | VS (SBool b) => Ok (if b then 1 else 0)
   | _ => bind (py_float v) int_of_fl
   end.
 Definition fint (v : value) : res value :=
@@ -479,14 +481,25 @@ Definition py_str (v : value) : res value :=
   | _ => Unmod
   end.
 
+(* --- meta_parse.fnumber (online_filter "<feat> min/max") -------------- *)
+Definition is_number (v : value) : bool :=
+  match v with
+  | VS (SBool _) | VS (SInt _) | VS (SFloat _) | VS (SNpInt _)
+  | VS (SNpF64 _) | VS (SNpF32 _) => true
+  | _ => false
+  end.
+
 Definition py_floatv (v : value) : res value :=
   bind (py_float v) (fun f => Ok (VS (SFloat f))).
+
+Definition fnumber (v : value) : res value :=
+  if is_number v then Ok v else py_floatv v.
 
 (* the converter functions that occur in the tables; [CId] stands for "no
    converter" (get_config_value_func returns the identity) *)
 Inductive conv :=
 | CStr | CFloat | CFint | CFbool | CFboolorfloat | CFintlist | CF1d | CF2d
-| CLcstr | CId.
+| CLcstr | CFnumber | CId.
 
 Definition apply (c : conv) (v : value) : res value :=
   match c with
@@ -499,6 +512,7 @@ Definition apply (c : conv) (v : value) : res value :=
   | CF1d => f1dfloatduple v
   | CF2d => f2dfloatarray v
   | CLcstr => lcstr v
+  | CFnumber => fnumber v
   | CId => Ok v
   end.
 
@@ -540,6 +554,7 @@ Definition out_types (c : conv) : list pytype :=
   | CFintlist => [TList]
   | CF1d => [TTuple]
   | CF2d => [TNdarray]
+  | CFnumber => [TNumber]
   | CId => []
   end.
 
@@ -617,6 +632,8 @@ Section Tables.
       if str_eqb sec s_online_filter then
         if ends_with s_soft_limit key then CFbool
         else if ends_with s_polygon_points key then CF2d
+        else if ends_with [109; 105; 110] key || ends_with [109; 97; 120] key
+             then CFnumber
         else CId
       else CId
     end.
@@ -955,7 +972,9 @@ Section Tables.
         end
     | VArr0 DBool x => Ok (VS (SNpBool (bool_of_fl x)))
     | VArr0 DInt x => match x with
-                      | FFin m => Ok (VS (SNpInt (Z.quot m 8)))
+                      | FFin m => if int64_ok (Z.quot m 8)
+                                  then Ok (VS (SNpInt (Z.quot m 8)))
+                                  else Unmod
                       | _ => Unmod
                       end
     | VArr0 DF64 x => Ok (VS (SNpF64 x))
@@ -987,6 +1006,131 @@ Section Tables.
                   end
         | Raise e => Exc e
         | Unmod => OUnmod
+        end
+    end.
+
+  (* ---------------------------------------------------------------- *)
+  (* Configuration: sections (case-insensitive, repaired)              *)
+  (* ---------------------------------------------------------------- *)
+  Variable allsecs : list str.      (* keys of config_keys *)
+
+  Definition config := list (str * dict).
+
+  Fixpoint cget (c : config) (s : str) : option dict :=
+    match c with
+    | [] => None
+    | (s', d) :: t => if str_eqb s s' then Some d else cget t s
+    end.
+
+  Fixpoint cset (c : config) (s : str) (d : dict) : config :=
+    match c with
+    | [] => [(s, d)]
+    | (s', d') :: t => if str_eqb s s' then (s', d) :: t
+                       else (s', d') :: cset t s d
+    end.
+
+  Inductive coutcome :=
+  | CDone (c : config) (w : list warning)
+  | CExc (e : err)
+  | CUnmod.
+
+  (* Configuration.update({sec: items}) and Configuration(cfg={sec: items})
+     (on top of the configuration c): the section is created when missing *)
+  Definition cfg_update (sec : str) (items : list (str * value)) (c : config)
+    : coutcome :=
+    let ls := lower sec in
+    let d := match cget c ls with Some d => d | None => [] end in
+    match update ls items d with
+    | Done d' ws => CDone (cset c ls d') ws
+    | Exc e => CExc e
+    | OUnmod => CUnmod
+    end.
+
+  (* cfg[sec][key] = v: Configuration.__getitem__ creates known sections
+     only, otherwise KeyError *)
+  Definition cfg_item (sec key : str) (v : value) (c : config) : coutcome :=
+    let ls := lower sec in
+    match cget c ls with
+    | None => if mem_str ls allsecs || str_eqb ls s_user
+              then cfg_update sec [(key, v)] c else CExc EKey
+    | Some _ => cfg_update sec [(key, v)] c
+    end.
+
+  (* load_from_file + Configuration.update for a whole file: [cur] is the
+     section of the last header; an entry before any header is an error
+     (the variable `sec` is unbound) *)
+  Fixpoint load_lines (cur : option str) (lines : list str) (c : config)
+    : coutcome :=
+    match lines with
+    | [] => CDone c []
+    | line :: rest =>
+      let l := strip (before_hash line) in
+      match l with
+      | [] => load_lines cur rest c
+      | _ =>
+        if starts_with [91] l && ends_with [93] l then
+          let s := lower (firstn (length l - 2) (skipn 1 l)) in
+          let c' := match cget c s with
+                    | Some _ => c
+                    | None => cset c s []
+                    end in
+          load_lines (Some s) rest c'
+        else match split_first 61 l with
+        | None => load_lines cur rest c
+        | Some _ =>
+          match cur with
+          | None => CExc EOther
+          | Some s =>
+            let d := match cget c s with Some d => d | None => [] end in
+            match line_route s line d with
+            | Done d' ws =>
+                match load_lines cur rest (cset c s d') with
+                | CDone c'' ws' => CDone c'' (ws ++ ws')
+                | o => o
+                end
+            | Exc e => CExc e
+            | OUnmod => CUnmod
+            end
+          end
+        end
+      end
+    end.
+
+  (* the entries of one section, as a dictionary-level fold *)
+  Fixpoint load_section (sec : str) (lines : list str) (d : dict) : outcome :=
+    match lines with
+    | [] => Done d []
+    | line :: rest =>
+        match line_route sec line d with
+        | Done d' ws =>
+            match load_section sec rest d' with
+            | Done d'' ws' => Done d'' (ws ++ ws')
+            | o => o
+            end
+        | o => o
+        end
+    end.
+
+  (* ---------------------------------------------------------------- *)
+  (* carry-over: export.hdf5 and the command-line tools                *)
+  (* ---------------------------------------------------------------- *)
+  (* One hop of export.hdf5 (and of join/split/condense, which export): the
+     entry found in the configuration of the source is handed to
+     RTDCWriter.store_metadata of the new file, which is then opened.  For
+     compress/repack (attributes copied verbatim) a hop is re-opening. *)
+  Definition stored_of (key : str) (o : outcome) : option value :=
+    match o with
+    | Done d [] => dget d (lower key)
+    | _ => None
+    end.
+
+  Fixpoint carry_hops (n : nat) (sec key : str) (v : value) : outcome :=
+    match n with
+    | O => h5_route sec key v []
+    | S n' =>
+        match stored_of key (carry_hops n' sec key v) with
+        | Some w => h5_route sec key w []
+        | None => carry_hops n' sec key v
         end
     end.
 
@@ -1066,7 +1210,7 @@ Section Tables.
     end.
   Definition enc_err (e : err) : Z :=
     match e with EValue => 1 | EType => 2 | EOverflow => 3 | EAttr => 4
-               | EKey => 5 end.
+               | EKey => 5 | EOther => 9 end.
   Definition enc_res (r : res value) : list Z :=
     match r with
     | Ok v => 1 :: enc_value v
@@ -1138,7 +1282,10 @@ Section Tables.
        route 3: like 0, on a dictionary that already holds the value
                 converted once (idempotence of the whole assignment)       *)
   Definition run_case (c : Z * str * str * value) : list Z :=
-    let '(route, sec, key, v) := c in
+    let '(route, sec0, key, v) := c in
+    (* Configuration lower-cases section names; RTDCWriter.store_metadata
+       (routes 2 and 7) takes them as they are *)
+    let sec := if (route =? 2) || (route =? 7) then sec0 else lower sec0 in
     if route =? 0 then enc_outcome key (setitem sec key v [])
     else if route =? 1 then
       match v with
@@ -1164,6 +1311,7 @@ Section Tables.
       | OUnmod => [99]
       end
     else if route =? 2 then enc_outcome key (h5_route sec key v [])
+    else if route =? 7 then enc_outcome key (carry_hops 2 sec key v)
     else
       match setitem sec key v [] with
       | Done d [] =>
@@ -1173,13 +1321,39 @@ Section Tables.
           end
       | o => enc_outcome key o
       end.
+  (* Configuration-level cases: (how, sec, items): how 0 = update /
+     constructor, 1 = item assignment of the single entry; observed through
+     the stored entries of the (lower-case) section, sorted *)
+  Definition enc_coutcome (sec : str) (o : coutcome) : list Z :=
+    match o with
+    | CDone c ws =>
+        let d := match cget c (lower sec) with Some d => d | None => [] end in
+        1 :: len ws :: map enc_warning ws ++ len d ::
+        flat_map (fun kv => len (fst kv) :: fst kv ++ enc_value (snd kv))
+                 (items d)
+    | CExc e => [2; enc_err e]
+    | CUnmod => [99]
+    end.
+
+  Definition cfg_case (c : Z * str * list (str * value)) : list Z :=
+    let '(how, sec, its) := c in
+    if how =? 0 then enc_coutcome sec (cfg_update sec its [])
+    else match its with
+         | [(k, v)] => enc_coutcome sec (cfg_item sec k v [])
+         | _ => [98]
+         end.
+
+  (* a whole configuration file, observed through section sec *)
+  Definition file_case (c : str * list str) : list Z :=
+    let (sec, lines) := c in enc_coutcome sec (load_lines None lines []).
 End Tables.
 
 (* direct call of a converter function *)
 Definition conv_of_Z (n : Z) : conv :=
   match n with
   | 0 => CStr | 1 => CFloat | 2 => CFint | 3 => CFbool | 4 => CFboolorfloat
-  | 5 => CFintlist | 6 => CF1d | 7 => CF2d | 8 => CLcstr | _ => CId
+  | 5 => CFintlist | 6 => CF1d | 7 => CF2d | 8 => CLcstr | 9 => CFnumber
+  | _ => CId
   end.
 Definition conv_case (c : Z * value) : list Z :=
   let (n, v) := c in enc_res (apply (conv_of_Z n) v).
